@@ -165,6 +165,10 @@ class Ref:
             if w[1] in self.sessions:
                 self.sessions.discard(w[1])
                 self.expect("session", "OK", res)
+        elif o == "flipcheck":
+            self.counts["vchg"] = self.counts.get("vchg", 0) + 1
+            if res != "absent" and not res.endswith("vchg ok"):
+                self.fail.append(("vchg", self.opno, "an overwrite that only changes the value's representation moved a node version: " + res))
         elif o == "nvcheck":
             self.counts["phantom"] = self.counts.get("phantom", 0) + 1
             if not res.startswith("stale 1"):
